@@ -359,8 +359,9 @@ def build_cases(tier, seed, wd, res):
         klass[k] = klass.get(k, 0) + 1
 
     # strings of the class alphabet: quick = all up to length 4 plus a seeded sample of the longer ones
-    longer = [s for s in strings if len(s) > 4]
-    chosen = [s for s in strings if len(s) <= 4] + (rnd.sample(longer, min(len(longer), 6000)) if quick else longer)
+    cut = 4 if quick else 5
+    longer = [s for s in strings if len(s) > cut]
+    chosen = [s for s in strings if len(s) <= cut] + rnd.sample(longer, min(len(longer), 6000 if quick else 100000))
     for s in chosen:
         add({"dir": "sn", "in": concretize(s, rnd)}, "strings")
     for s in rnd.sample(chosen, min(len(chosen), 600 if quick else 6000)):
@@ -370,8 +371,8 @@ def build_cases(tier, seed, wd, res):
     for i, n in enumerate(numerals):
         p = positional(n["neg"], n["ds"], n["e"])
         add({"dir": "sn", "in": cps(p if i % 2 == 0 else variant(p, rnd))}, "numerals")
-        for f in ([fns[i % 3]] if quick else fns):
-            # rounding is interesting where the numeral has a fraction or is large
+        near = -6 <= n["e"] <= 20          # rounding is interesting where the numeral has a fraction or is a large integer
+        for f in (fns if near and not quick else [fns[i % 3]]):
             if quick and not (-4 <= n["e"] <= 18 or i % 7 == 0):
                 continue
             add({"dir": f, "in": cps(p if i % 5 else variant(p, rnd))}, "numerals-fn")
@@ -381,7 +382,7 @@ def build_cases(tier, seed, wd, res):
         for f in fns:
             add({"dir": f, "in": cps(s)}, "range-ends")
     # ties and their neighbours, exact expansions
-    for x in gen_ties(rnd, 30 if quick else 3000):
+    for x in gen_ties(rnd, 30 if quick else 600):
         s = exact_decimal(x)
         for f in fns:
             add({"dir": f, "in": cps(s)}, "ties")
@@ -390,10 +391,10 @@ def build_cases(tier, seed, wd, res):
         for f in fns:
             add({"dir": f, "arg": a}, "specials")
     # exact expansions of random doubles
-    for s in gen_exact_numerals(rnd, 1500 if quick else 30000):
+    for s in gen_exact_numerals(rnd, 1500 if quick else 15000):
         add({"dir": "sn", "in": cps(s)}, "exact-expansions")
     # arbitrary doubles
-    for h in gen_doubles(rnd, 5000 if quick else 120000):
+    for h in gen_doubles(rnd, 5000 if quick else 60000):
         add({"dir": "ns", "bits": h}, "doubles")
     return cases, klass
 
